@@ -202,3 +202,10 @@ CHECKS["C24"] = {
     "text": "quick: 695 programs x 2 paths, 8.2k argument positions resolved, 113 invokes compiled and executed; thorough: 5.9k programs, 84k positions, 7.8k executed invokes. The generated algorithm call must pass exactly the PSy routine's dummies in order; repeated arguments map to one dummy, distinct ones to distinct dummies; every kernel operates on the data of the argument written at that position.",
     "note": "Repeats inside one kernel are refused by PSyclone for every kernel and are only checked to be refused. Named invokes are renamed in executed programs (names judged statically). Open (PSyIR path only): a structure-component actual in a kernel call that also has a real literal becomes a CodeBlock and is not de-duplicated; SymbolicMaths.equal compares member names case-sensitively. Fixed: stencil extent actual replaced by the dummy name; named single-built-in invoke called by index.",
 }
+
+CHECKS["C21"] = {
+    "level": "model_checking",
+    "technique": "exhaustive enumeration of LFRic kernel metadata from a grammar (filtered by PSyclone's own metadata validation); for each valid description the real PSy-layer generator (caller) and the real kernel-stub generator (callee) are run and their argument lists compared position by position (count, type, kind, rank, definability, role) by an independent reader of both Fortran texts, against a model of the documented ordering rules for cell-column kernels, and by compiling stub + PSy layer together with gfortran against the stub infrastructure",
+    "text": "quick: 1,370 metadata descriptions (scalars, fields on w0..wtheta/any_space/any_discontinuous_space with every legal access, field vectors, stencils incl. cross2d and direction, operators, CMA operators, basis/diff-basis with each quadrature shape and evaluators, mesh and reference-element properties), 984 with both sides produced, 13.6k positions compared, 249 gfortran units; thorough: 20.2k descriptions, 216k positions, every unit compiled.",
+    "note": "Refusals by either generator (inter-grid and domain stubs, fixed stencil extents, basis on any_space in stubs) are counted, not judged; documented-order ambiguities are accepted in any order. Fixed: basis arrays not in gh_shape order in the call; nfaces_re_h undeclared with adjacent_face; stub stencil sizes all given the first stencil's rank.",
+}
